@@ -15,7 +15,13 @@
 //	            then State.VerifyTx and State.DoTx (= Chain.SubmitTx without its duplicate cache)
 //
 // After every step the three keys (value + version through State.CreateXMReader().Get) and the balances of
-// initiator, contract, vault and recipient are projected.  The driver never judges: spec/Trace_Contract.tla does.
+// initiator, contract, vault and recipient are projected.  The keys are read four ways: on the node that executed
+// the steps (its version cache is warm), on a second node opened on the same stored data that executes nothing
+// (every new version is resolved from the stored tables and the stored transaction, as after a restart, by a
+// snapshot reader or after a cache eviction; for every n-th case additionally on a node reopened on a copy of the
+// data), by a range read (Select) on both, and by following the stored version (QueryTx, TxOutputsExt[offset]).
+// Odd cases keep the contract's keys in a bucket that sorts after "$transient", so that the records of the
+// transient bucket precede the contract's writes in TxOutputsExt.  The driver never judges: spec/Trace_Contract.tla does.
 package main
 
 import (
